@@ -6,6 +6,7 @@
  * With hideproc=1 the bottom process first hides /proc (private mount namespace, empty tmpfs): every list must PASS. */
 #define _GNU_SOURCE
 #include <errno.h>
+#include <sys/stat.h>
 #include <fcntl.h>
 #include <sched.h>
 #include <stdio.h>
@@ -47,6 +48,19 @@ int main(int argc, char **argv) {
     if (*selfname) prctl(PR_SET_NAME, selfname, 0, 0, 0);
     oracle_ancestors();
     if (hide) { if (unshare(CLONE_NEWNS) || mount("none", "/", NULL, MS_REC | MS_PRIVATE, NULL) || mount("tmpfs", "/proc", "tmpfs", 0, NULL)) { perror("hide /proc"); return 3; } }
+    /* hide == 2: a FABRICATED /proc (tmpfs): the ancestry above the real parent is what VERIF_FAKEPROC says - "<namehex>:<pid>,..." from the
+       parent upwards (the first pid is replaced by the real getppid()); process ids of up to 7 digits and 15-byte names give stat lines
+       longer than any a process of this sandbox can have */
+    if (hide == 2) {
+        const char *spec = getenv("VERIF_FAKEPROC"); if (!spec) return 3; char *d = strdup(spec), *sv = NULL; long pids[64]; char *names[64]; int n = 0;
+        for (char *t = strtok_r(d, ",", &sv); t && n < 63; t = strtok_r(NULL, ",", &sv)) { char *c = strchr(t, ':'); if (!c) return 3; *c = 0; names[n] = unhex(*t ? t : "-"); pids[n] = atol(c + 1); n++; }
+        if (n == 0) return 3; pids[0] = getppid(); nanc = 0;
+        for (int i = 0; i < n; i++) { char dp[64], fp[96]; snprintf(dp, sizeof dp, "/proc/%ld", pids[i]); mkdir(dp, 0555); snprintf(fp, sizeof fp, "%s/stat", dp); FILE *sf = fopen(fp, "w"); if (!sf) { perror(fp); return 3; }
+            long pp = i + 1 < n ? pids[i + 1] : 0;
+            fprintf(sf, "%ld (%s) S %ld %ld %ld 34816 %ld 4194560 1234 0 0 0 12 3 0 0 20 0 1 0 123456789 12345678 1234 18446744073709551615 1 1 0 0 0 0 0 0 0 0 0 0 17 3 0 0 0 0 0\n", pids[i], names[i], pp, pids[i], pids[i], pids[i]);
+            fclose(sf); strncpy(anc[nanc], names[i], 63); anc[nanc][63] = 0; nanc++; }
+        free(d);
+    }
     snoopy_init();
     FILE *lf = fopen(listfile, "r"); if (!lf) { perror(listfile); return 3; }
     static char line[1 << 16]; long n = 0, bad = 0; int shown = 0;
@@ -57,7 +71,7 @@ int main(int argc, char **argv) {
         int expect_drop = 0; char *dup = strdup(list); char *sv = NULL;
         for (char *it = strtok_r(dup, ",", &sv); it; it = strtok_r(NULL, ",", &sv)) for (int a = 0; a < nanc; a++) if (*it && !strcmp(it, anc[a])) expect_drop = 1;
         free(dup);
-        if (hide) expect_drop = 0;
+        if (hide == 1) expect_drop = 0;   /* /proc not available at all: every error is "pass" */
         static const int ambient[] = { 0, ENOENT, ERANGE, EINTR }; errno = ambient[n % 4];   /* the caller's ambient errno rotates: it must not matter */
         int r = snoopy_filterregistry_callByName("exclude_spawns_of", list);
         n++;
